@@ -259,7 +259,7 @@ pub fn run_c08(tier: Tier, seed: u64, index: u64, scratch: &Scratch, rec: &mut R
         (ExitSpec::Code(0), true),
     ];
     let n_insp = base.root.layout.inspect.len();
-    let fileops = if tier == Tier::Quick { 2 } else { 7 };
+    let fileops = if tier == Tier::Quick { 2 } else { 8 };
     // an extra "stage": the inspection of a delegated level fails while the delegating step has
     // surplus evidence (another functionary's plain link and a threshold that one link meets)
     {
@@ -303,7 +303,7 @@ pub fn run_c08(tier: Tier, seed: u64, index: u64, scratch: &Scratch, rec: &mut R
         }
         for (exit, noutf8) in outcomes {
             for fo in 0..fileops {
-                let fo = (fo + r.idx(7)) % 7;
+                let fo = (fo + r.idx(8)) % 8;
                 let mut t = staged.clone();
                 let which = r.idx(n_insp.max(1));
                 let ops = match fo {
@@ -313,6 +313,11 @@ pub fn run_c08(tier: Tier, seed: u64, index: u64, scratch: &Scratch, rec: &mut R
                     4 => vec![],
                     5 => vec![],
                     6 => vec![FsOp::Write { path: "forbidden".into(), content: "x".into() }],
+                    7 => vec![match r.below(3) {
+                        0 => FsOp::TamperKeepStat { path: "pre-existing".into() },
+                        1 => FsOp::Write { path: "pre-existing".into(), content: "ORIGINAL".into() },
+                        _ => FsOp::Append { path: "pre-existing".into(), content: "!".into() },
+                    }],
                     _ => vec![FsOp::Remove { path: "pre-existing".into() }, FsOp::Write { path: "forbidden".into(), content: "x".into() }],
                 };
                 if fo >= 2 {
@@ -339,13 +344,23 @@ pub fn run_c08(tier: Tier, seed: u64, index: u64, scratch: &Scratch, rec: &mut R
                         }
                     }
                 }
+                if fo == 7 {
+                    // an inspection that modifies a file its rules pin to what it was before the command
+                    if let Some(i) = t.root.layout.inspect.get_mut(0) {
+                        i.exp_mat = vec![];
+                        i.exp_prod = vec![
+                            vec!["MATCH".into(), "pre-existing".into(), "WITH".into(), "MATERIALS".into(), "FROM".into(), i.name.clone()],
+                            vec!["DISALLOW".into(), "pre-existing".into()],
+                        ];
+                    }
+                }
                 if fo == 6 {
                     // the first inspection bears the name of a step; it creates a file its rules forbid
                     if let (Some(st), Some(i)) = (t.root.layout.steps.get(r.idx(t.root.layout.steps.len().max(1))).map(|s| s.name.clone()), t.root.layout.inspect.get_mut(0)) {
                         i.name = st;
                     }
                 }
-                set_actor(&mut t, if fo == 4 || fo == 6 { 0 } else { which }, exit.clone(), ops, *noutf8);
+                set_actor(&mut t, if fo == 4 || fo == 6 || fo == 7 { 0 } else { which }, exit.clone(), ops, *noutf8);
                 t.labels.push(format!("stage={}", stage.map(gen::fname).unwrap_or("none")));
                 t.labels.push(format!("exit={:?}{}", exit, if *noutf8 { "+NOUTF8" } else { "" }));
                 t.labels.push(format!("fileops={fo}"));
